@@ -35,6 +35,9 @@ WithTimes(i, w) == /\ Len(objs) < MaxObjs
                    /\ objs' = Append(objs, [objs[i] EXCEPT !.w0 = w[1], !.wn = w[2], !.st = w[3]])
                    /\ last' = [op |-> "WithTimes", a |-> i, w0 |-> w[1], wn |-> w[2], st |-> w[3], slot |-> Len(objs) + 1]
                    /\ Fixed /\ UNCHANGED nbasis
+(* a window that starts where the construction grid starts (as seen by the object), has exactly the number of samples of one
+   FFT period and another stride: everything about it matches the internal FFT grid except the step *)
+FullPeriod(i, st) == WithTimes(i, <<W0 + objs[i].delay, uniq * n, st>>)
 Shift(i, d) == /\ objs' = [objs EXCEPT ![i].w0 = @ + d, ![i].delay = @ + d]
                /\ last' = [op |-> "Shift", a |-> i, d |-> d]
                /\ Fixed /\ UNCHANGED nbasis
@@ -55,6 +58,7 @@ Fresh == /\ Len(objs) < MaxObjs
          /\ Fixed
 
 Next == \/ \E i \in 1..Len(objs), w \in Windows : WithTimes(i, w)
+        \/ \E i \in 1..Len(objs), st \in {1, 4, 6} : FullPeriod(i, st)
         \/ \E i \in 1..Len(objs), d \in Shifts : Shift(i, d)
         \/ \E i \in 1..Len(objs) : Copy(i)
         \/ \E i \in 1..Len(objs) : Rebuild(i)
